@@ -168,7 +168,7 @@ fn build(ch: &mut Chooser, fmt: &'static str) -> FCase {
             c.style = Some(style);
             if encn == 2 { c.formula = Some(xlsx::XFormula::Plain("1+1".into())); }
             let book = xlsx::XBook { sheets: vec![xlsx::XSheet::new("S", vec![c])], styles: Some(xlsx::XStyles { num_fmts: fmts.iter().map(|(a, b)| (*a as u32, b.clone())).collect(), cell_xfs: xfs.iter().map(|x| *x as u32).collect(), cell_style_xfs: vec![14, 0], omit_general_numfmt: omit }), date1904: Some(is1904), ..Default::default() };
-            let e = xlsx::XEnc { prefix, explicit_t_n: encn == 1, apply_nf: ch.choose("xlsx.applyNumberFormat(1,absent,0)", 3) as u8, numfmt_code_first: k % 2 == 1, bool_words: v.fract() != 0.0, ..Default::default() };
+            let e = xlsx::XEnc { prefix, explicit_t_n: encn == 1, apply_nf: ch.choose("xlsx.applyNumberFormat(1,absent,0)", 3) as u8, numfmt_code_first: k % 2 == 1, bool_words: v.fract() != 0.0, extras: k % 3 == 1, cell_attrs_reversed: k % 2 == 0 && encn == 0, ..Default::default() };
             FCase { bytes: xlsx::write(&book, &e), expect: expect_num(v), desc: format!("xlsx style={label} v={v} 1904={is1904} enc={encn} prefix={prefix} general-xf-without-numFmtId={omit} xf@{style}"), fmt }
         }
         "xls" => {
